@@ -138,12 +138,12 @@ def run(ctx):
     nrow = 4 if q else 8
     for i in range(nrow):
         specs.append(("rows-%d" % i, ["rows", 257 * i // nrow, 257 * (i + 1) // nrow, "all"], {}))
-    for i in range(4 if q else 16):
-        specs.append(("rand-%d" % i, ["rand", (300 if q else 1000) + i, (150 if i % 2 == 0 else 40) if i < 12 else 1000], {}))
+    for i in range(4 if q else 12):
+        specs.append(("rand-%d" % i, ["rand", (300 if q else 800) + i, (150 if i % 2 == 0 else 40) if i < 10 else 1000], {}))
     specs.append(("exh1", ["exh", 1, 0, 1], {}))
     if not q:
         # all 3-byte strings through the base64 functions: 65536 two-byte prefixes x 256
-        n3 = 48
+        n3 = 24
         for i in range(n3):
             specs.append(("b64rows-%d" % i, ["rows", 257 + 65536 * i // n3, 257 + 65536 * (i + 1) // n3, "b64"], {}))
     jobs = [threading.Thread(target=pool._guard, args=(drv, t, a), kwargs=kw) for t, a, kw in specs]
